@@ -651,12 +651,15 @@ func (f *OrefaFile) Write(b []byte) (n int, err error) {
 		f.at = int64(len(nd.data))
 	}
 
-	if gap := f.at - int64(len(nd.data)); gap > 0 {
+	if gap := f.at - int64(len(nd.data)); gap > 0 && len(b) > 0 {
 		// writing beyond the end of the file leaves a zero filled gap.
 		nd.data = append(nd.data, make([]byte, gap)...)
 	}
 
-	n = copy(nd.data[f.at:], b)
+	if len(b) > 0 {
+		n = copy(nd.data[f.at:], b)
+	}
+
 	if n < len(b) {
 		nd.data = append(nd.data, b[n:]...)
 		n = len(b)
